@@ -127,7 +127,7 @@ structure Split where
   before : Nat
   after : Nat
   height : Int
-deriving Repr, Inhabited
+deriving Repr, Inhabited, DecidableEq
 
 structure Cfg where
   mainNet : Bool := false
